@@ -825,6 +825,9 @@ run_resp(void *arg)
 }
 
 // =============================================================================
+static long   g_exec;
+static double g_wall;
+
 static void
 explore(const char *name, void (*fn)(void *), const int *prefix, int plen,
     int depth)
@@ -842,7 +845,19 @@ explore(const char *name, void (*fn)(void *), const int *prefix, int plen,
 	g_prefix         = prefix;
 	g_prefix_len     = plen;
 	g_depth          = depth;
-	vx_explore(&c, NULL);
+	vx_stats st;
+	memset(&st, 0, sizeof(st));
+	vx_explore(&c, &st);
+	g_exec += st.executions;
+	g_wall += st.wall_s;
+}
+
+// enough time left today for n more executions (measured rate, 2x margin)?
+static int
+affordable(double n)
+{
+	double rate = g_wall > 1 ? (double) g_exec / g_wall : 300.0;
+	return 2.0 * n / rate + 60 < vx_time_left();
 }
 
 #define RESP(j, k) (L_RESP0 + (j) * K_NKIND + (k))
@@ -900,18 +915,18 @@ main(int argc, char **argv)
 	for (unsigned i = 0; T && i < nsc; i++) {
 		int d = SC[i].dt;
 		snprintf(name, sizeof(name), "%s-d%d", SC[i].name, d);
-		if (d <= 3 || vx_time_left() < 200)
+		if (d <= 3 || !affordable(104976))
 			continue;
 		explore(name, run_surv, SC[i].p, SC[i].pl, d);
 	}
 	// deeper runs only when the machine is fast enough today
 	for (unsigned i = 0; T && i < nsc; i++) {
-		if (!SC[i].dx || vx_time_left() < 1000)
+		if (!SC[i].dx || !affordable(104976))
 			continue;
 		snprintf(name, sizeof(name), "%s-d%d", SC[i].name, SC[i].dx);
 		explore(name, run_surv, SC[i].p, SC[i].pl, SC[i].dx);
 	}
-	if (T && vx_time_left() > 1000) {
+	if (T && affordable(262144)) {
 		g_resp_nb = 0;
 		snprintf(name, sizeof(name), "resp-aio-d6");
 		explore(name, run_resp, NULL, 0, 6);
